@@ -124,6 +124,8 @@ def oracle_serve(pid, sc, ob):
     if pid == "C01" and sc.get("method", "GET") == "GET":
         tot_all = sum(len(e["data"]) for e in evs if e["kind"] == "D")
         cl = hd.get("content-length")
+        if cl and not cl[0].isdigit():
+            return "Content-Length %r is not a decimal number" % cl[0]
         ann = int(cl[0]) if cl else (evs[0]["lower"] if evs else 0)
         if tot_all > ann:
             return "delivered %d bytes > announced %d" % (tot_all, ann)
@@ -755,6 +757,12 @@ def fam_glue():
                     base = {"headers": hs, "len": L, "etag": et, "lm": "%d.250000000" % LM, "entity_headers": eh, "scripts": [], "extra_polls": 1}
                     out.append(dict(base, id="gl%d" % k, method="GET"))
                     out.append(dict(base, id="gl%d:h" % k, method="HEAD"))
+    for L2 in (0, 1, 2):
+        for hs in ([], [("range", "bytes=0-0")], [("range", "items=0-0")], [("range", "bytes=0-0"), ("if-range", '"nomatch"')]):
+            k += 1
+            base = {"headers": hs, "len": L2, "etag": '"x"', "lm": "%d.0" % LM, "entity_headers": [], "scripts": [], "extra_polls": 1}
+            out.append(dict(base, id="gl%d" % k, method="GET"))
+            out.append(dict(base, id="gl%d:h" % k, method="HEAD"))
     for m in ("POST", "PUT", "OPTIONS", "FOO"):
         k += 1
         out.append({"id": "gl%d" % k, "method": m, "headers": [("range", "bytes=0-1")], "len": L, "etag": '"x"', "lm": "%d.0" % LM, "scripts": [], "extra_polls": 0})
